@@ -153,6 +153,7 @@ struct UttPlan {
   bool fullUtt = false;
   int queryMask = 0; // which partial queries are made at query points
   bool recordPartials = false; // partial results become part of the record
+  bool queryUnrecorded = false; // partial results are asked for but not compared
 };
 
 std::string runUtterance(decoder_t *d, const std::vector<int16_t> &audio, const UttPlan &p, bool withAlignment, Ctx *ctx) {
@@ -180,7 +181,7 @@ std::string runUtterance(decoder_t *d, const std::vector<int16_t> &audio, const 
     if (ch.queryAfter) {
       if (ctx) ctx->label("variant:partial-queries");
       if (p.recordPartials) rec << "partial@" << pos << ": " << observe(d).str() << " | ";
-      else if (p.queryMask & 1) observe(d);
+      else if ((p.queryMask & 1) || p.queryUnrecorded) observe(d);
       if (p.queryMask & 2) {
         lattice_t *dag = decoder_lattice(d);
         if (dag && (p.queryMask & 4)) {
@@ -1165,7 +1166,11 @@ UttSpec genUtt(Choices &c, bool target) {
     u.plan.chunks = {{(size_t)N, false, false}};
   } else {
     u.plan.chunks = genChunks(c, (size_t)N, false, target ? 15 : 10);
-    u.plan.recordPartials = target;
+    // partial results are asked for along the way, but only the result for the utterance is compared: how many
+    // frames have been searched when a call returns depends on the sizes of internal buffers, which an earlier
+    // long full-utterance call enlarges - the statement speaks of the result for an utterance
+    u.plan.recordPartials = false;
+    u.plan.queryUnrecorded = target;
     if (mode == 1)
       for (size_t i = 0; i + 1 < u.plan.chunks.size(); ++i) u.plan.chunks[i].noSearch = true;
   }
